@@ -25,7 +25,13 @@ ALPHABET = ['a', 'b', 'z', 'A', '0', '_', '-', ' ', 'é', '€', '\U0001F600', '
             '￿', '\U00010000', '\U0010ffff']
 
 
+SIGNATURE_LIKE = ['\ufeff', '\ufeffhello', '\ufeff\ufeff', '\ufffe', '\u200b', '\u00ad-soft', ' lead', 'trail ', '\t', '\r\n', 'a\x00b',
+                  '\ud7ff', '\ue000', '\U0010ffff', 'e\u0301', '\u212b', 'ﬁ']      # characters a "forgiving" codec or normaliser eats or rewrites
+
+
 def rand_text(rng, maxlen=12, alphabet=ALPHABET):
+    if rng.random() < 0.04:
+        return rng.choice(SIGNATURE_LIKE)
     n = rng.choice([0, 1, 1, 2, 3, rng.randint(0, maxlen)])
     return ''.join(rng.choice(alphabet) for _ in range(n))
 
